@@ -7,6 +7,7 @@ CONSTANTS
   FixClose = 2
   MaxVer = 7
   AllowFail = FALSE
+  FixFail = TRUE
   QuiescentClose = FALSE
 SPECIFICATION Spec
 INVARIANTS Safe NoReachableFree RefsOK NoDoubleFree VerFreeOK AllReleased RefsAreHolders 
